@@ -15,7 +15,7 @@ Verdict(e) ==
            LET P == Partition(e.K) IN
            IF e.keys # GroupKeysP(P) THEN "group_keys"
            ELSE IF \E k \in 1..Len(e.funs) : ~RatSeqEq(e.out[k], AggregateP(e.funs[k], P, e.V)) THEN "agg_value"
-           ELSE IF e.calls # ApplyCallsP(P, e.V) THEN "apply_calls"
+           ELSE IF ~e.nocalls /\ e.calls # ApplyCallsP(P, e.V) THEN "apply_calls"
            ELSE "ok"
       [] e.op = "window" ->
            LET P == Partition(e.K) IN
